@@ -7,6 +7,7 @@ import (
 	"time"
 
 	"go.mongodb.org/mongo-driver/bson"
+	"go.mongodb.org/mongo-driver/mongo/options"
 
 	"github.com/256dpi/lungo"
 	"github.com/256dpi/lungo/mongokit"
@@ -95,7 +96,7 @@ func init() {
 			hasNS   bool
 		}
 		var mu sync.Mutex
-		var noops, conflicts, idDrops, failing int64
+		var noops, conflicts, idDrops, failing, readBatteries int64
 		cfg := e1.Config{ReplayNames: c.ReplayCalls(), Alphabet: calls, Depth: depth, Stop: r.TooMany,
 			Before: func(w *world.World, path []int) interface{} {
 				p := &pre{dump: w.DumpAll(), indexes: map[string]mongokit.IndexConfig{}}
@@ -177,6 +178,24 @@ func init() {
 						r.Violation("delete-fails:"+kind, fmt.Sprintf("%s returned %s; history: %s", last, obs, hist), rep)
 					}
 				}
+				// reads never disturb the indexes: projections that cut arrays below included documents, sorted and
+				// filtered reads, distinct values; then the same coherence check once more
+				if cur, err := w.C("d", "c").Find(w.Ctx, bD(), options.Find().SetProjection(bD("n", int32(1), "n.t", bD("$slice", int32(1)))).SetSort(bD("a", int32(-1)))); err == nil {
+					var out []bson.D
+					_ = cur.All(w.Ctx, &out)
+				}
+				if cur, err := w.C("d", "c").Find(w.Ctx, bD("a", bD("$gte", int32(1))), options.Find().SetProjection(bD("a", bD("$slice", int32(-1)), "items", bD("$elemMatch", bD("k", bD("$gte", int32(2))))))); err == nil {
+					var out []bson.D
+					_ = cur.All(w.Ctx, &out)
+				}
+				_ = w.C("d", "c").FindOne(w.Ctx, bD(), options.FindOne().SetProjection(bD("items", int32(1), "items.k", int32(1), "a", bD("$slice", bson.A{int32(1), int32(1)})))).Err()
+				_, _ = w.C("d", "c").Distinct(w.Ctx, "n.t", bD())
+				mu.Lock()
+				readBatteries++
+				mu.Unlock()
+				for _, pr := range coherenceProblems(w.Engine.Catalog()) {
+					r.Violation("after-reads:"+pr.class+":"+callKind(last), pr.what+" after "+hist+" and a battery of projecting reads", rep)
+				}
 				if p.hasNS && (strings.Contains(last, `DropIndex("_id_")`) || strings.Contains(last, `DropIndex("*")`) || strings.Contains(last, `DropOneWithKey({"_id"`)) {
 					mu.Lock()
 					idDrops++
@@ -233,6 +252,7 @@ func init() {
 		r.Set("conflicting_creations", conflicts)
 		r.Set("id_index_drop_attempts", idDrops)
 		r.Set("failing_calls_checked", failing)
+		r.Set("read_batteries_followed_by_coherence_check", readBatteries)
 		r.Set("alphabet", e1.Names(calls, seq(len(calls))))
 		r.Set("exhaustive", st.Exhaustive)
 		r.Set("samples", append(append([]interface{}{}, toIface(st.Shortest)...), toIface(st.Longest)...))
